@@ -13,7 +13,7 @@
 
    This file contains only the property theorems; proofs are in Proofs/Config.v. *)
 From Coq Require Import ZArith List Bool Lia.
-Require Import JV.Base.PyPrelude JV.Model.Config JV.Gen.T_config_param JV.Gen.T_active_backend JV.Gen.T_mp_context JV.Proofs.Config.
+Require Import JV.Base.PyPrelude JV.Model.Config JV.Gen.T_config_param JV.Gen.T_active_backend JV.Gen.T_mp_context JV.Gen.T_backend_attrs JV.Gen.T_pool_settings JV.Proofs.Config.
 Import ListNotations.
 Open Scope Z_scope.
 
@@ -208,6 +208,31 @@ Theorem C17_start_method_priority : forall env arg dflt,
   (arg = None -> env = None -> src_mp_context env arg dflt = Some dflt).
 Proof. intros. split; [apply src_mp_context_eq | apply mp_context_priority]. Qed.
 Print Assumptions C17_start_method_priority.
+
+(* the class attributes _get_active_backend reads (supports_sharedmem / uses_threads of the four built-in backend classes) are
+   REGENERATED from the class bodies (Gen/T_backend_attrs.v) and are the ones every theorem above uses *)
+Theorem C17_backend_flags_regenerated : forall k,
+  src_supports_sharedmem k = supports_sharedmem k /\ src_uses_threads k = uses_threads k.
+Proof. exact backend_flags_eq. Qed.
+Print Assumptions C17_backend_flags_regenerated.
+
+(* TEMP FOLDER, one step further than Parallel's own record: the folder the pool / executor REALLY resolves
+   (_memmapping_reducer._get_temp_dir, regenerated: Gen/T_pool_settings.v) is the temp_folder it was given -- i.e. the setting
+   resolved by C17_priority (explicit argument > context > none) -- then JOBLIB_TEMP_FOLDER, then /dev/shm, then the system folder *)
+Theorem C17_temp_folder_priority : forall arg env shm tmpdir,
+  src_temp_folder arg env shm tmpdir = Some (gcp arg env (gcp shm None tmpdir)).
+Proof. exact temp_folder_priority. Qed.
+Print Assumptions C17_temp_folder_priority.
+
+(* BACKEND-OBJECT KWARGS.  Inside Multiprocessing/LokyBackend.configure (regenerated merge) a key passed by the call -- an
+   explicit Parallel argument or the setting resolved from the context -- beats the same key carried by the backend object
+   (parallel_config('multiprocessing', maxtasksperchild=7) / MultiprocessingBackend(maxtasksperchild=7)); the object's value is used
+   exactly when the call does not pass the key *)
+Theorem C17_backend_object_kwargs : forall obj call,
+  (forall v, call = Some v -> src_mp_pool_kwarg obj call = Some v /\ src_loky_executor_kwarg obj call = Some v) /\
+  (call = None -> src_mp_pool_kwarg obj call = obj /\ src_loky_executor_kwarg obj call = obj).
+Proof. exact pool_kwarg_merge_spec. Qed.
+Print Assumptions C17_backend_object_kwargs.
 
 (* THE SETTINGS OF AN OBJECT ARE CONSTANT OVER ITS LIFE.  For every backend class and every history of __enter__ / successful
    calls / failed calls / __exit__ on one Parallel object: every configure the backend receives carries the record resolved by
